@@ -70,6 +70,16 @@ pub fn run(ctx: &Ctx) -> Value {
             let other_u = if rng.chance(1, 2) { u } else { *rng.pick(&us) };
             let o = mk(other_u, *rng.pick(&OFFS));
             tw.emit(ev("rel", json!({"a": ndt(u), "b": ndt(other_u)}), || json!({"eq": z == o, "c": z.cmp(&o) as i8, "hasheq": h(&z) == h(&o)})));
+            // a leap second and the instant one second later with the same fraction are DIFFERENT instants, in that order
+            if u.time().nanosecond() >= 1_000_000_000 && !(dn(u.date()) == MAX_DAY && u.time().num_seconds_from_midnight() == 86_399) {
+                let s2 = u.time().num_seconds_from_midnight() + 1;
+                let nxt = mk_ndt(dn(u.date()) + (s2 / 86_400) as i64, s2 % 86_400, u.time().nanosecond() - 1_000_000_000);
+                let o2 = mk(nxt, *rng.pick(&OFFS));
+                tw.emit(ev("rel", json!({"a": ndt(u), "b": ndt(nxt), "via": "Ord::cmp"}), || json!({"eq": z == o2, "c": Ord::cmp(&z, &o2) as i8, "hasheq": h(&z) == h(&o2)})));
+                tw.emit(ev("rel", json!({"a": ndt(nxt), "b": ndt(u), "via": "partial_cmp"}), || json!({"eq": o2 == z, "c": o2.partial_cmp(&z).unwrap() as i8, "hasheq": h(&z) == h(&o2)})));
+                tw.emit(ev("rel", json!({"a": ndt(u), "b": ndt(nxt), "via": "max/min/sort"}), || { let mut v = vec![o2, z]; v.sort(); let c = if v[0] == z && v[1] == o2 && std::cmp::max(z, o2) == o2 && std::cmp::min(z, o2) == z { -1 } else { 1 };
+                    let mut bs = std::collections::BTreeSet::new(); bs.insert(z); bs.insert(o2); json!({"eq": bs.len() != 2, "c": c, "hasheq": h(&z) == h(&o2)}) }));
+            }
             let ou: DateTime<Utc> = Utc.from_utc_datetime(&other_u);
             tw.emit(ev("rel", json!({"a": ndt(u), "b": ndt(other_u)}), || json!({"eq": z == ou, "c": z.partial_cmp(&ou).unwrap() as i8, "hasheq": true})));
             // field replacement on the wall clock
